@@ -11,6 +11,21 @@ CLAIMED = {
          "Every writer program of the stated finite spaces (all 255 aligned section residues x prototypes x point counts; all API programs to depth 3/4 over a 30-op alphabet; point counts around 1x/2x/3x the natural packet capacity; hooked packet capacity 1..9 x every catalogue type incl. widths 0..64) is executed on the real E57Writer and read back with the real raw reader; the oracle is the harness's own record of the values handed in, compared bit-for-bit. Exhaustive within the stated catalogues and bounds.",
          "values are drawn from finite catalogues (boundaries, walking bits, float specials); programs are bounded in depth; rustc/std and the in-memory device are trusted",
          "DESIGN.md §5 C01"),
+ "C06": ("model_checking",
+         "bounded-exhaustive enumeration (full product of blob length 0..1023 x 255 start residues, program DFS, descriptor tampering) on the real writer/reader",
+         "All 261 120 (length, aligned start residue) pairs, multi-page lengths, every depth-<=3 program over blobs / all image kinds with and without masks / clouds with payload patterns unique per blob, and a menu of crafted descriptors and section-length patches are executed on the real code; payloads compared byte for byte; a crafted descriptor must yield Err or exactly `length` bytes as decoded by the independent page decoder.",
+         "blob lengths above 1023 are sampled at page-boundary neighbourhoods and three long sizes only; tampering uses a fixed menu of descriptor lengths",
+         "DESIGN.md §5 C06"),
+ "C10": ("model_checking",
+         "bounded-exhaustive enumeration of prototypes, unstorable values and API call orders on the real writer under catch_unwind, judged by a reference predicate of the documented rules",
+         "Every prototype of length <=2 over 25 names x 14 types, every valid base plus <=2 extra records, every single-record mutation of the catalogue prototypes, 9 kinds of unstorable value at every position of a 9-point cloud, and every sequence of <=3/4 API sessions (incl. abandoned writers, double finalize, failing XML transformer) are executed; no call may panic, listed unstorable inputs must be rejected without side effects, and whenever finalize reports success the file must read back exactly.",
+         "rejection is demanded only for the classes the statement lists; duplicates and other undocumented shapes are judged by no-panic and read-back only",
+         "DESIGN.md §5 C10"),
+ "C14": ("model_checking",
+         "deviation-bounded exhaustive DFS (<=2 quick / <=3 thorough deviations) over attribute groups, types, value orders and limit overrides on the real writer/reader",
+         "48 attribute-group subsets x 4 sequence kinds, with every combination of at most 2 (3) deviations over coordinate/index/colour/intensity types, value sets, limit overrides and all 6 orders of three distinct values per attribute; stored bounds compared numerically with an independent fold, limits with the declared type range or the override.",
+         "NaN coordinates excluded; partial limit overrides not judged",
+         "DESIGN.md §5 C14"),
 }
 
 ALL = ["C%02d" % i for i in range(1, 21)]
